@@ -177,7 +177,7 @@ Proof.
     + destruct IN as [_ [_ IN]]. rewrite CA in IN. apply IN.
     + intros _. unfold trig_readless_pub in T2. rewrite CA in T2.
       destruct (is_reader (user_mode c (sess_uid sm sid))); [reflexivity|]. exfalso. apply T2. split; [exact AT|reflexivity].
-    + cbn [fault_ok] in FO. destruct FO as [FO|FO]; [left; apply nofault_all; exact FO|right; exact FO].
+    + cbn [fault_ok] in FO. exact FO.
   - (* ONote *)
     cbn [known op_sid] in KN. unfold step.
     assert (forall c, ca x = Some c -> attached c sid = true \/ what = K_recv ->
@@ -222,7 +222,7 @@ Proof.
     destruct (ca x) as [c|] eqn:CA; cbn -[del_msg]; [|keep_tac IV CA].
     destruct (attached c sid) eqn:AT; cbn -[del_msg]; [|keep_tac IV CA].
     apply good_inv. apply del_msg_good; [apply inv_good; assumption|exact KN|].
-    cbn [fault_ok] in FO. destruct FO as [FO|FO]; [left; apply nofault_all; exact FO|right; exact FO].
+    cbn [fault_ok] in FO. exact FO.
   - (* OSetSub *)
     cbn [known op_sid] in KN. unfold step.
     destruct (ca x) as [c|] eqn:CA; cbn -[set_sub offline_set_sub].
